@@ -200,6 +200,7 @@ TypeOK == /\ st.s.lockedB # NoB => st.s.lockedR >= 1
           /\ st.s.validB # NoB => st.s.validR >= 1
           /\ st.s.lockedB \notin InvalidBids /\ st.s.validB \notin InvalidBids
 
-\* every transition, for the replay of the exhaustive runs
-Dump == PrintT(ToJson([w |-> hist', n0 |-> n0]))
+\* every transition, for the replay of the exhaustive runs: the actions that lead to the pre-state, and the
+\* action with its expected observation (compact: the per-step observations of the path are not repeated)
+Dump == PrintT(ToJson([acts |-> [i \in 1..Len(hist) |-> hist[i].a], last |-> hist'[Len(hist')]]))
 =================================================================================
